@@ -601,6 +601,16 @@ PENDING_REASON = "no static check is registered for this property yet (rules des
 
 # sentences for rules added after the level texts above were written; appended to the claimed level
 EXTRA = {
+    "C23": "C23.parse also reads hexadecimal / octal / binary / underscored int spellings and interprets the write half set_literal_value over the value partition; C23.escape: no read of a string node's raw_value where its value is needed; a tuple written without parentheses stays a valid literal when mutation empties it.",
+    "C24": "C24.escape (raw_value); C24.seed-file interprets _read_module_source over every order of a directory listing (byte code in __pycache__, test files of modules whose name contains this one).",
+    "C27": "C27.lambda interprets _get_lambda_assigned_name over single-line, parenthesised and continued module-level lambdas.",
+    "C28": "C28.splice (must-pass): both _generic_visit_* generators write the mutated child into the parent before every yield.",
+    "C29": "C29.open-bindings interprets the loop over the open-like bindings with the real modules: builtins.open, io.open, Path.open and os.open are all replaced.",
+    "C30": "C30.sink is interpreted with filesystem isolation active (the builtin open refuses /dev/null) when the executor enters the isolation first; C30.tracked (must-pass): every seeded Random instance is registered for reseeding.",
+    "C31": "C31.aux: every executor the subprocess executor builds for itself receives this executor's module provider and time bounds.",
+    "C32": "C32.proxy: single-call methods of the tracer proxy forward to the wrapped method of the same name; C32.namespace: the namespace dict of an execution is created per call and not kept on the executor.",
+    "C34": "C34.edges: issubset against str / bytes / dict operands counts the elements they yield; the constructor keeps the elements of a falsy iterable.",
+    "C35": "C35.html: the lexer the HTML template instantiates yields one highlighted line per source line (evaluated with the repository's pygments); C35.regular-result: the result returned by the type-tracing executor is never the proxied execution's.",
     "C01": "Tracer callbacks are also interpreted for receivers whose attribute lookup raises KeyError / ZeroDivisionError / decimal signals (nothing may escape into the module under test).",
     "C02": "C02.isolation interprets init_trace / analyze_results over ExecutionTrace objects: every execution gets a private copy of the import trace, stored traces of results are never used as accumulator.",
     "C03": "C03.isolation: outcomes recorded by one execution do not reach the import trace, a later execution or another test's result (same interpretation as C02.isolation, predicate maps).",
@@ -610,16 +620,16 @@ EXTRA = {
     "C10": "C10.mio-covered interprets MIOArchive.update over a grid of fitness values: the heuristic value 1.0 (target covered) exactly for a fitness of zero.",
     "C11": "The Chromosome comparison / sorting helpers are checked to be stateless between calls.",
     "C12": "C12.laws interprets ComputationCache over every sequence (depth 3 quick / 4 thorough) of registrations, chromosome changes and queries: each getter returns what the registered functions compute on the current state; set_fitness_values (local search restoring a test) keeps fitness and covered verdict in agreement.",
-    "C13": "C13.aliasing (taint): archived solutions reach local search only through clone().",
+    "C13": "C13.aliasing (taint): archived solutions reach local search only through clone(). C13.iterable: update archives the same goals for a list, a tuple, an iterator and a generator of the same solutions.",
     "C08": "C08.pipeline interprets from_path + get_scope + should_be_covered / should_cover_line over small modules x configurations (only-cover / no-cover nesting, definitions in excluded blocks, separators that do not end a line, async for, names defined twice, else branches of TYPE_CHECKING / __main__, marker flags); C08.read interprets read_module_ast over a representative file system (BOM, encoding declaration).",
     "C14": "C14.assignment interprets compute_ranking_assignment over populations with structurally equal individuals (partition by identity, rank == front index). RankSelection.get_index additionally satisfies a frequency law over a fixed grid of draws (better ranks are selected at least as often).",
     "C15": "C15.container interprets TestCase (registry == bound variables after add / chop / batch removal, clone independence); C15.cascade interprets delete_statement_gracefully over every well-formed 4-statement test case: no read is left without a binder and nothing outside the dependency closure is removed.",
     "C16": "sorted(..., key=...) sites are accepted only with an injective key from an enumerated table.",
     "C17": "C17.budgets interprets get_stopping_conditions: one condition per configured budget, also when budgets carry equal numbers, and every observer is attached. C17.charged (must-pass): a substitute result (timeout=True) carries the number of started statements before it reaches the budget observers.",
-    "C18": "The filter that removes non-holding assertions is called unconditionally before export.",
+    "C18": "The filter that removes non-holding assertions is called unconditionally before export. C18.exc-import evaluates the writer's own reference / import expressions over a top-level, a nested and a function-local exception class.",
     "C20": "C20.nameable: isinstance assertions only for types that can be named in an expression; fields with non-identifier names are not followed.",
     "C21": "C21.unchecked (must-pass / guard dominance): a mutant that was not executed returns the skip token and is counted and collected only under `is not None`; C21.own-rendering: no verification-observer state is keyed by assertion objects, whose equality conflates 1 and True; removing non-holding assertions that raises is a finding.",
-    "C22": "Statement removers also skip statements that carry assertions themselves (carrier rule).",
+    "C22": "Statement removers also skip statements that carry assertions themselves (carrier rule). Guards that live in a predicate helper are inlined; statements that use a protected variable must be skipped as well.",
 }
 
 
